@@ -1,6 +1,6 @@
 (* Entry points of the process-state model (C18): handler modules are their own names (load = id),
    an analysis is the list of modules it consults plus its result. *)
-From DippyV Require Import Base.Str Base.Verdict Base.Sx Model.Cache Entry.Common.
+From DippyV Require Import Base.Str Base.Verdict Base.Sx Model.Cache Model.PairWalk Entry.Common.
 
 Definition is (x : sx) (name : string) : bool := str_eqb (sx_str x) (s2l name).
 Definition hmode_of_sx (x : sx) : hmode := if is x "gemini" then HGemini else if is x "cursor" then HCursor else HClaude.
@@ -36,6 +36,9 @@ Definition sx_of_answer (a : answer) : sx :=
   | AUnit => L [A $"unit"]
   end.
 
+Definition sx_of_comp (c : comp) : sx :=
+  A (match c with CLru => $"lru" | CMode => $"mode" | CLogCfg => $"logcfg" | CLogDis => $"logdis" end).
+
 Fixpoint run_hist (explicit : option hmode) (s : state str) (h : list (query input)) : list answer * state str :=
   match h with
   | [] => ([], s)
@@ -54,4 +57,21 @@ Definition entry (orc : oracle) (cmd : str) (args : list sx) : option sx :=
     let (answers, s) := run_hist explicit (init str explicit) (map query_of (sx_list (a 1%nat))) in
     Some (L [L (map sx_of_answer answers); sx_of_strs (map fst (lru str s)); sx_of_hmode (mode str s);
              sx_of_bool (match logcfg str s with Some _ => true | None => false end); sx_of_bool (logdis str s)])
+  else if is_cmd cmd "cache_residue" then
+    (* per call of the history: the components of the process state the model says it changes *)
+    let explicit := opt_of_sx hmode_of_sx (a 0%nat) in
+    Some (L (map (fun cs => L (map sx_of_comp cs))
+                 (residues str load input analysis explicit (init str explicit) (map query_of (sx_list (a 1%nat))))))
+  else if is_cmd cmd "cache_effects" then
+    (* per call of the history: where it appends a decision-log line, and the log-full flag of that line *)
+    let explicit := opt_of_sx hmode_of_sx (a 0%nat) in
+    Some (L (map (fun e => match e with Some (p, f) => L [A p; sx_of_bool f] | None => L [] end)
+                 (effects str load input analysis explicit (init str explicit) (map query_of (sx_list (a 1%nat))))))
+  else if is_cmd cmd "pair_walk" then
+    (* the walk over a pool of n queries; n and the indices travel as one code point each *)
+    Some (L (map (fun k => A [N.of_nat k]) (pair_walk (match sx_str (a 0%nat) with c :: _ => N.to_nat c | [] => 0%nat end))))
+  else if is_cmd cmd "pair_block" then
+    (* one block of the walk (pair_walk n = the blocks 0 .. n-1 one after the other, by definition): for big pools *)
+    let num x := match sx_str x with c :: _ => N.to_nat c | [] => 0%nat end in
+    Some (L (map (fun k => A [N.of_nat k]) (block (num (a 0%nat)) (num (a 1%nat)))))
   else None.
